@@ -402,6 +402,24 @@ func init() {
 		fmt.Sscan(args[1], &nattr)
 		c16Generate(uint(ln), nattr)
 	}
+	// derived parameters: the shipped table (table = Ln) or MakeDerivedParameters on given base
+	// parameters, against the formulas of the specification written out in paramsInd
+	executors["derived-params"] = func(o Op) string {
+		var sp *gabikeys.SystemParameters
+		if t := o.int("table"); t > 0 {
+			sp = gabikeys.DefaultSystemParameters[t]
+			if sp == nil {
+				return "missing"
+			}
+		} else {
+			base := gabikeys.BaseParameters{LePrime: uint(o.int("LePrime")), Lh: uint(o.int("Lh")), Lm: uint(o.int("Lm")), Ln: uint(o.int("Ln")), Lstatzk: uint(o.int("Lstatzk"))}
+			sp = &gabikeys.SystemParameters{BaseParameters: base, DerivedParameters: gabikeys.MakeDerivedParameters(base)}
+		}
+		b, _ := json.Marshal(paramsOp(sp))
+		var pm map[string]any
+		json.Unmarshal(b, &pm)
+		return fmt.Sprint(paramsInd(pm, int(sp.Ln)))
+	}
 	executors["keygen-terminates"] = func(o Op) string {
 		self, err := os.Executable()
 		if err != nil {
@@ -566,6 +584,19 @@ func genC16(g *Rng, tier string, emit func(Op)) {
 	plans := []plan{{128, 700}, {130, 40}, {132, 40}, {134, 40}, {160, 150}, {192, 150}, {256, 180}, {320, 40}, {384, 30}, {512, 24}}
 	if thorough {
 		plans = []plan{{128, 4000}, {130, 300}, {132, 300}, {134, 300}, {144, 300}, {160, 1000}, {192, 1000}, {256, 1400}, {320, 350}, {384, 300}, {448, 150}, {512, 200}, {1024, 8}}
+	}
+	// (d) derived parameters: every shipped set, and base parameters in which no two lengths agree
+	// (only the 4096-bit set has Lm != Lh, and no key of that size is generated here)
+	for _, ln := range []int{1024, 2048, 4096} {
+		emit(Op{"op": "derived-params", "class": "derived-params-table", "label": "true", "nomodel": true, "table": ln})
+	}
+	nder := 40
+	if thorough {
+		nder = 1000
+	}
+	for i := 0; i < nder; i++ {
+		emit(Op{"op": "derived-params", "class": "derived-params-random", "label": "true", "nomodel": true, "table": 0,
+			"LePrime": 60 + g.intn(200), "Lh": 128 + g.intn(400), "Lm": 128 + g.intn(700), "Ln": 128 + g.intn(5000), "Lstatzk": 40 + g.intn(200)})
 	}
 	var keys []c16Key
 	t0 := time.Now()
